@@ -210,8 +210,9 @@ def create_for_folder_subcommand(
     """
     logger.verbose_logging = verbose
 
-    if not os.path.isabs(root_path):
-        root_path = os.path.join(os.getcwd(), root_path)
+    # absolute and normalized, so that paths built from it equal the paths derived from the history
+    # (e.g. for a root given with more than one trailing separator)
+    root_path = os.path.abspath(root_path)
 
     logger.verbose(f"Creating new generation for folder at path: {root_path} ...")
 
@@ -429,8 +430,9 @@ def create_for_single_files_subcommand(
     """
     logger.verbose_logging = verbose
 
-    if not os.path.isabs(root_path):
-        root_path = os.path.join(os.getcwd(), root_path)
+    # absolute and normalized, so that paths built from it equal the paths derived from the history
+    # (e.g. for a root given with more than one trailing separator)
+    root_path = os.path.abspath(root_path)
 
     assert len(single_file) != 0
 
@@ -605,8 +607,9 @@ def verify_entire_folder(
     """
     logger.verbose_logging = verbose
 
-    if not os.path.isabs(root_path):
-        root_path = os.path.join(os.getcwd(), root_path)
+    # absolute and normalized, so that paths built from it equal the paths derived from the history
+    # (e.g. for a root given with more than one trailing separator)
+    root_path = os.path.abspath(root_path)
 
     if single_file is not None and not os.path.isabs(single_file):
         single_file = os.path.join(root_path, single_file)
@@ -703,8 +706,9 @@ def verify_directory_hash_subcommand(
     """
     logger.verbose_logging = verbose
 
-    if not os.path.isabs(root_path):
-        root_path = os.path.join(os.getcwd(), root_path)
+    # absolute and normalized, so that paths built from it equal the paths derived from the history
+    # (e.g. for a root given with more than one trailing separator)
+    root_path = os.path.abspath(root_path)
 
     logger.verbose(f"check folder at path: {root_path}")
 
@@ -1041,8 +1045,9 @@ def diff_entire_folder_against_full_history_subcommand(root_path, verbose, ignor
     """
     logger.verbose_logging = verbose
 
-    if not os.path.isabs(root_path):
-        root_path = os.path.join(os.getcwd(), root_path)
+    # absolute and normalized, so that paths built from it equal the paths derived from the history
+    # (e.g. for a root given with more than one trailing separator)
+    root_path = os.path.abspath(root_path)
 
     logger.verbose(f"check folder at path: {root_path}")
 
@@ -1204,8 +1209,9 @@ def flatten_history(
 ):
     logger.verbose_logging = verbose
 
-    if not os.path.isabs(root_path):
-        root_path = os.path.join(os.getcwd(), root_path)
+    # absolute and normalized, so that paths built from it equal the paths derived from the history
+    # (e.g. for a root given with more than one trailing separator)
+    root_path = os.path.abspath(root_path)
 
     logger.verbose(f"Flattening folder at path: {root_path} ...")
 
@@ -1321,8 +1327,9 @@ def info_for_entire_history(root_path, verbose):
 
     logger.verbose_logging = verbose
 
-    if not os.path.isabs(root_path):
-        root_path = os.path.join(os.getcwd(), root_path)
+    # absolute and normalized, so that paths built from it equal the paths derived from the history
+    # (e.g. for a root given with more than one trailing separator)
+    root_path = os.path.abspath(root_path)
 
     logger.info(f"Info with history at path: {root_path}")
 
@@ -1359,8 +1366,9 @@ def info_for_single_file(root_path, verbose, single_file):
 
     logger.verbose_logging = verbose
 
-    if not os.path.isabs(root_path):
-        root_path = os.path.join(os.getcwd(), root_path)
+    # absolute and normalized, so that paths built from it equal the paths derived from the history
+    # (e.g. for a root given with more than one trailing separator)
+    root_path = os.path.abspath(root_path)
 
     logger.info(f"Info with history at path: {root_path}")
 
